@@ -206,7 +206,10 @@ Definition step_op_t (o : op_t) (s : st) : res st :=
 Definition apply_op_t (s : st) (o : op_t) : st := match step_op_t o s with Ok s' => s' | _ => s end.
 Definition run_ops_t (ops : list op_t) (s : st) : st := fold_left apply_op_t ops s.
 
-Definition no_tree_b (s : st) : bool := forallb (fun n => negb (kind_eqb (fst (nk n)) KTree)) (nodes s).
+(* tree-free: no node is a static tree and no creator column refers to one *)
+Definition no_tree_b (s : st) : bool :=
+  forallb (fun n => negb (kind_eqb (fst (nk n)) KTree) &&
+                    match ncre n with Some c => negb (kind_eqb (fst c) KTree) | None => true end) (nodes s).
 
 (* trace checker of the E2 correspondence for the alphabet with trees *)
 Fixpoint first_bad_t (i : nat) (s : st) (tr : list (op_t * outcome * dump)) : option nat :=
